@@ -325,7 +325,7 @@ def run(ctx):
     tasks = []
     # histories whose references are all known first; the others compute the missing references
     # themselves (a slow machine shrinks the exploration, it does not empty it)
-    hist.sort(key=lambda hc: sum(1 for op in hc[1] if _key(op) not in amap))
+    hist.sort(key=lambda hc: sum(1 for op in hc[1] if not op.get("parse_fault") and _key(op) not in amap))
     for i in range(0, n, size):
         part = hist[i:i + size]
         keys = {_key(op) for _h, calls in part for op in calls}
